@@ -934,9 +934,40 @@ fn constructors(t: &mut Tally, rng: &mut Rng, maxn: usize) {
     // Vandermonde: x_i^j
     t.case("vandermonde");
     let xs: Vec<f64> = (0..r).map(|_| rng.range(-2.0, 2.0)).collect();
-    let exp: Vec<f64> = xs.iter().flat_map(|&x| (0..c).map(move |j| x.powi(j as i32))).collect();
-    let got = guard(|| (None, vandermonde(&xs, c)));
-    pattern(t, [id!("vandermonde", "no_panic"), id!("vandermonde", "pattern")], "vandermonde", got, None, &exp, &|| json!({"call": format!("vandermonde(x, {})", c), "x": jf(&xs)}));
+    // the pattern is x_i^j; how the power is formed (powi, running product, repeated squaring) is not
+    // pinned down, so entry (i, j) is judged against the double-double power within j rounding errors
+    // (columns 0 and 1 are exactly 1 and x_i under every such scheme)
+    let exact: Vec<Dd> = xs
+        .iter()
+        .flat_map(|&x| {
+            (0..c).scan(Dd::from(1.0), move |acc, j| {
+                if j > 0 {
+                    *acc = *acc * x;
+                }
+                Some(*acc)
+            })
+        })
+        .collect();
+    let exp: Vec<f64> = exact.iter().map(|d| d.f()).collect();
+    let got = guard(|| vandermonde(&xs, c));
+    match got {
+        Err(msg) => {
+            t.check(id!("vandermonde", "no_panic"), "vandermonde", false, &|| json!({"call": format!("vandermonde(x, {})", c), "x": jf(&xs), "observed": {"panic": msg}}));
+        }
+        Ok(v) => {
+            t.check(id!("vandermonde", "no_panic"), "vandermonde", true, &|| Value::Null);
+            let ok = v.len() == r * c
+                && (0..r * c).all(|k| {
+                    let j = k % c;
+                    if j <= 1 {
+                        v[k].to_bits() == exp[k].to_bits()
+                    } else {
+                        (Dd::from(v[k]) - exact[k]).f().abs() <= j as f64 * f64::EPSILON * exp[k].abs()
+                    }
+                });
+            t.check(id!("vandermonde", "pattern"), "vandermonde", ok, &|| json!({"call": format!("vandermonde(x, {})", c), "x": jf(&xs), "observed": {"len": v.len(), "data": jf(&v)}, "expected": {"len": r * c, "data": jf(&exp), "tolerance": "columns 0, 1 exact; column j within j*eps relative of the exact power"}}));
+        }
+    }
 
     // design matrix: a column of ones, then the column-major input
     t.case("design");
